@@ -609,6 +609,12 @@ func evaluate(c *caseJ, sum *vh.Summary, cw *vh.CaseWriter, verbose bool) {
 	if bytes.Equal(unhx(c.Cfg.Seg), []byte("\n")) {
 		sum.Hist("segment-delimiter-LF")
 	}
+	if in := unhx(c.InputHex); bytes.Contains(in, []byte("\ufeff")) {
+		sum.Hist("input-contains-U+FEFF")
+		if bytes.HasPrefix(in, []byte("\ufeff")) {
+			sum.Hist("input-starts-with-U+FEFF")
+		}
+	}
 	longest := 0
 	for _, s := range o.Raw {
 		n := 0
@@ -705,7 +711,7 @@ func main() {
 			sum.Hist("corpus")
 		}
 	}
-	total := o.Count(1800, 40000)
+	total := o.Count(1500, 40000)
 	for i := 0; i < total; i++ {
 		var c *caseJ
 		if r.Chance(0.75) {
